@@ -2,6 +2,10 @@
 """Regenerates /verif/MANIFEST.json from the table below (run after adding a check)."""
 import json, subprocess
 CHECKS = {
+ "C15": dict(level="model_checking",
+   text="Schedule exploration of the real broker: (live) 2 autonomous publishers x 2-3 numbered messages over QoS patterns 000/111/222/121/202, 2 autonomous acknowledging subscribers with granted QoS 2 and 1, windows 1-2, every schedule within delay bound 1 (thorough 2-3): per (publisher, published QoS, received QoS) sequence numbers never decrease, everything arrives; (resume) a subscriber cut with 2..window(+PUBREC'd) QoS 1/2 messages unacknowledged resumes its session: retransmitted PUBLISH(dup)/PUBREL packets must come in the order of their original transmission, for every schedule AND every iteration order of the maps inside the code (owned choice) within bound 2 (thorough 3-4). The client library's callback order and the service's command order are covered by the client harness parts of this check.",
+   note="Trusted: rewriter (map ranges become explorer-owned iteration orders) + scheduler shims, codec pipe. Participants bounded to 2+2, windows 1-4.",
+   technique="deviation-bounded exhaustive schedule and map-order exploration of the implementation under a controlled scheduler", design="5 (C15)"),
  "C13": dict(level="model_checking",
    text="Schedule exploration of the real broker: 2 (and 3) newcomers CONNECT concurrently with the incumbent's client id, all clean/unclean mixes, incumbent idle / with an open outbound handshake and a queued message behind a window of 1 / dying by EOF at the same moment / sending DISCONNECT at the same moment, a helper publishing towards the id at the same time; every schedule of the race phase within delay bound 2 (3 newcomers: 1; thorough 3 / 2). Instant clause at every accepting CONNACK (every client of the id set up earlier is terminated), at quiescence: exactly one survivor, nobody blocked in Setup, lifecycle clauses, each displaced accepted client's will exactly once and before its Terminate, and for unclean chains the queued / in-flight / concurrently published messages all reach the survivor, none offered twice as new.",
    note="Trusted: rewriter + scheduler shims (select with several ready cases is an owned choice), codec pipe, recording backend. Set-up and epilogue run on the default schedule (vrt.Quiet); only the race phase is explored. Kill timeout never fires.",
